@@ -13,6 +13,27 @@ WORDS = ["alfa", "bravo", "charlie", "delta", "echo", "foxtrot", "golf",
          "victor", "whiskey", "xray", "yankee", "zulu"]
 
 
+# dynamic (glob) fields: schema name -> the concrete field names documents use
+DYN = {"*_dyn": ("a_dyn", "b_dyn")}
+
+
+def expand_names(names, schema=None):
+    """Configured field names with glob entries replaced by the concrete names documents
+    use (plus, given a schema, the concrete names of globs the schema holds)."""
+    out = []
+    for n in names:
+        if n in DYN:
+            out.extend(DYN[n])
+        else:
+            out.append(n)
+    if schema is not None:
+        for g, cs in DYN.items():
+            for c in cs:
+                if c not in out and c in schema:
+                    out.append(c)
+    return out
+
+
 class FieldSpec(object):
     def __init__(self, name, make, gen, tags=(), weight=1.0):
         self.name = name
@@ -112,6 +133,9 @@ def zoo():
           lambda r, c: r.choice(c["vocab"]), tags=("column", "sortable", "twin"), weight=0.5),
         F("sp", lambda: fields.ID(stored=True),
           lambda r, c: None, tags=("twin_of_so",), weight=0.0),
+        # a dynamic field: indexed, scorable, with vectors, NOT stored (its lengths and vectors exist
+        # only in the per-document files, which merges have to carry over by concrete name)
+        F("*_dyn", lambda: fields.TEXT(vector=True), _text, tags=("dyn",), weight=0.0),
         F("k2", lambda: fields.ID(stored=True, unique=True),
           lambda r, c: None, tags=("key2",), weight=0.0),
         # explicit column types (C08)
@@ -193,7 +217,7 @@ class RunConfig(object):
         names = names if names is not None else self.fields
         sch = fields.Schema()
         for n in names:
-            sch.add(n, self.specs[n].make())
+            sch.add(n, self.specs[n].make(), glob=("*" in n))
         return sch
 
     def make_codec(self):
@@ -245,6 +269,11 @@ class DocGen(object):
         names = fields_subset if fields_subset is not None else cfg.fields
         for n in names:
             if n in ("k", "u", "sp", "k2"):
+                continue
+            if n in DYN:
+                for cn in DYN[n]:
+                    if rng.random() < 0.6:
+                        d[cn] = cfg.specs[n].gen(rng, ctx)
                 continue
             if n != "t" and rng.random() < sparse_p:
                 continue
